@@ -123,6 +123,7 @@ def run(c, chk):
     untitled_does_not_end_search(c, chk, ex)
     unique_titles(c, chk, ex)
     typed_members(c, chk, 'R9.10')
+    list_calls_need_a_list(c, chk)
     # R9.12: "an unknown name fails without effect", "removal by path": the by-name calls address what the resolver finds
     if not isinstance(chk, report.SubCheck):
         from . import c11 as _c11
@@ -347,6 +348,54 @@ def typed_members(c, chk, rid):
         elif n:
             chk.ok(rid, '%s: %d member accesses' % (f.name, n), 'each under a test of the option type', sample=(f.name in ('cfg_setopt', 'cfg_addtsec', 'cfg_opt_getnsec')))
     chk.floor('%s functions that touch value-slot members' % rid, nfun, 8)
+
+
+def flag_bit_established(p, bit, upto=None):
+    """has the path (up to assumption index upto) shown that `bit` is set in an option's flag word?"""
+    for cn, t, _ in (p.assume if upto is None else p.assume[:upto]):
+        if cn[0] != 'icmp' or cn[1] not in ('eq', 'ne'):
+            continue
+        for a, b in ((cn[2], cn[3]), (cn[3], cn[2])):
+            if not (a[0] == 'bin' and a[1] == 'and' and sym.is_const(b)):
+                continue
+            m = a[3] if sym.is_const(a[3]) else a[2] if sym.is_const(a[2]) else None
+            w = a[2] if sym.is_const(a[3]) else a[3]
+            if m is None or not sym.mentions(w, lambda v: v[0] == 'fld' and len(v) > 3 and v[3] == 'flags'):
+                continue
+            mask, k = m[1], b[1]
+            holds_eq = (cn[1] == 'eq') == t
+            if holds_eq and k == mask and (mask & bit):
+                return True              # (flags & M) == M
+            if mask == bit and ((k == 0 and not holds_eq)):
+                return True              # (flags & BIT) != 0
+    return False
+
+
+def list_calls_need_a_list(c, chk):
+    """R9.13: "calls with the wrong type ... fail without effect": the list calls (set / append a whole list) act on list options
+    only.  Every path of theirs that does something to the option has shown that CFGF_LIST is set - a multi section holds
+    several values too, but releasing "the old elements" of it destroys sections"""
+    chk.rule('R9.13', 'cfg_setlist()/cfg_addlist() touch the option only on paths that have shown CFGF_LIST to be set')
+    ex = sym.Explorer(c.modules, max_visits=2, mod_sets=c.mod_sets, max_paths=100000)
+    n = 0
+    for fname in ('cfg_setlist', 'cfg_addlist'):
+        fn = c.need(fname)
+        bad = None
+        for p in ex.explore(fn):
+            eff = [e for e in p.events if (e.kind == 'call' and not e.inlined and (e.name in ('cfg_free_value', 'cfg_addlist_internal') or e.name.startswith('cfg_opt_setn')))
+                   or (e.kind == 'store' and e.field in ('flags', 'nvalues', 'values') and sym.object_of(e.addr)[0] != 'alloca')]
+            if not eff:
+                continue
+            n += 1
+            if not flag_bit_established(p, 2, eff[0].seq):
+                bad = bad or (p, eff[0])
+        if bad is not None:
+            p, e = bad
+            chk.fail('R9.13', 'list-call-on-non-list:%s' % fname, c.where(e.ins), '%s() reaches %s without having shown that the option is a list (%s): called for a multi section '
+                     'it is not refused but releases the sections as "old elements"' % (fname, e.name + '()' if e.kind == 'call' else 'a store to ' + sym.render(e.addr), fp.cond_text(p, 4)))
+        else:
+            chk.ok('R9.13', fname, 'every path with an effect has tested CFGF_LIST')
+    chk.floor('R9.13 effect paths of the list calls', n, 2)
 
 
 def fp_null(cn, t):
